@@ -193,6 +193,13 @@ def main(argv):
     h_ok, h_msg = build_harness(log, cfg.get("cargo_profile"))
     if not h_ok:
         broken.append({"kind": "harness-broken", "what": h_msg})
+    # a generator marked "@<profile>" runs as that build of the harness and the library (e.g. the unoptimised one with
+    # overflow checks and debug assertions)
+    for prof in sorted({g[0][1:] for g in cfg["harness"] if g and g[0].startswith("@")} - {cfg.get("cargo_profile")}):
+        ok2, msg2 = build_harness(log, prof)
+        if not ok2:
+            h_ok = False
+            broken.append({"kind": "harness-broken", "what": msg2})
 
     # 5. correspondence
     stats = {}
@@ -209,8 +216,11 @@ def main(argv):
             ops_path = os.path.join(work, "ops_%d.txt" % gi)
             stats_path = os.path.join(work, "stats_%d.json" % gi)
             model_path = os.path.join(work, "model_%d.txt" % gi)
+            prof = cfg.get("cargo_profile") or "release"
+            if gen and gen[0].startswith("@"):
+                prof, gen = gen[0][1:], gen[1:]
             with open(ops_path, "w") as f:
-                r = subprocess.run([os.path.join(HARNESS, "target", cfg.get("cargo_profile") or "release", "verif-harness")] + gen +
+                r = subprocess.run([os.path.join(HARNESS, "target", prof, "verif-harness")] + gen +
                                    ["--tier", tier, "--seed", str(run_seed), "--stats", stats_path],
                                    stdout=f, stderr=subprocess.PIPE, text=True, env=ENV,
                                    timeout=cfg.get("timeout", 7200))
